@@ -327,8 +327,16 @@ TASKS.insert(len(TASKS) - 1, _c06.refinement_task(ic.RESEND_NEEDS["C09"], ic.RES
 import shared_tasks as _st  # noqa: E402
 TASKS[-1:-1] = _st.journal_tasks(ops=("persist_msg", "set_seq_num", "create_or_load")) + _st.encode_tasks()
 
+# when a journal method leaves the SQL subset of the verifier (the shared journal.* tasks are then undecided) the
+# reference-map sweep of C13 runs as the fallback: real Journaler against a map model, several sessions in one journal
+import C13_journal as _c13  # noqa: E402
+import copy as _copy  # noqa: E402
+_JFALL = _copy.copy(_c13.FALLBACK)
+_JFALL.covers_tasks = ("journal.",)  # it answers for the journal tasks only, not for the connection's handlers
+
 PROPERTY = Property(
     "C09", TASKS,
+    bounded=[_JFALL],
     assumptions=[
         "single-endpoint part only: 'after reconnect and Logon the session continues without losing or duplicating "
         "application messages ... without a ResendRequest when nothing was lost' needs the peer and is not decided "
